@@ -297,6 +297,8 @@ def _large_record(rng, kind, n):
             v = np.concatenate((v, np.full(n - len(v), v[-1])))
     elif kind == 'noise':
         v = g.standard_normal(n)
+    elif kind == 'zigzag':      # strictly alternating: every interior sample is a turning point (n - 2 of them) -- used for the source-hinted sizes
+        v = (g.integers(1, 4, size=n) * (-1) ** np.arange(n)).astype(float)
     else:   # dyadic multiples of 1/8 with long monotone stretches (few turning points per sample) and flat starts/ends
         steps = g.integers(-2, 3, size=n) * np.repeat(g.choice([-1, 1], size=n // 50 + 1), 50)[:n]
         v = np.cumsum(steps) / 8.0
@@ -452,6 +454,9 @@ def _x2_large(ctx, cur):
              ('monotone-stretches', rng.choice([10000, 16384, 50000]))]
     if not quick:
         sizes += [(k, m) for k in ('int-walk', 'plateau', 'noise', 'monotone-stretches') for m in (4096, 5001, 65536, 100000)]
+    # source hints: numbers of samples / of turning points around every new integer constant of eqsig/fns/peaks_and_crossings.py
+    hs = gen.hint_sizes(ctx, lo=9, hi=1000000, cap=6, halves=True)
+    sizes += [(k, m) for m in hs for k in ('int-walk', 'noise') if m > 600] + [('zigzag', m + d) for m in hs for d in (0, 2, 3)]
     for kind, n in sizes:
         desc, v = _large_record(rng, kind, n)
         cur.clear()
